@@ -3,7 +3,8 @@ CONSTANTS
   MaxBlocks = 2
   MaxTxs = 2
   Kinds = {"cosmos", "ok", "vmerr", "failed", "refused"}
-  Chains <- McChains
+  BlockChoices <- McBlocks
+  MaxLen <- McMaxLen
   Starts = {0, 1}
   MaxCrashes = 2
   Atomic = TRUE
